@@ -4,6 +4,7 @@ import GlonaxModel.Driver.Wire
 import GlonaxModel.Driver.Session
 import GlonaxModel.Driver.Drivers
 import GlonaxModel.Driver.Director
+import GlonaxModel.Driver.Input
 open Glonax.Driver
 
 def dispatch (prop : String) (inp out : List String) : Verdict :=
@@ -19,6 +20,7 @@ def dispatch (prop : String) (inp out : List String) : Verdict :=
   | "C14" => SessDrv.check "C14" inp out
   | "C06" => DrvDrv.check "C06" inp out
   | "C09" => DirDrv.check inp out
+  | "C18" => InpDrv.check inp out
   | "C08" => DrvDrv.check "C08" inp out
   | "C11" => DrvDrv.check "C11" inp out
   | "C12" => DrvDrv.check "C12" inp out
@@ -31,6 +33,7 @@ structure Tally where
   specFail : Nat := 0
   parseErr : Nat := 0
   shown : Nat := 0
+  shownSpec : Nat := 0
 
 partial def loop (h : IO.FS.Stream) (t : Tally) (maxShow : Nat) : IO Tally := do
   let line ← h.getLine
@@ -48,8 +51,10 @@ partial def loop (h : IO.FS.Stream) (t : Tally) (maxShow : Nat) : IO Tally := do
       if v.parseErr then t := { t with parseErr := t.parseErr + 1 }
       else if !v.agree then t := { t with disagree := t.disagree + 1 }
       if !v.specFail.isEmpty then t := { t with specFail := t.specFail + 1 }
-      if bad && t.shown < maxShow then
-        t := { t with shown := t.shown + 1 }
+      -- separate budgets: lines with a Spec failure on the implementation are never crowded out by mere disagreements
+      let isSpec := !v.specFail.isEmpty
+      if bad && ((isSpec && t.shownSpec < maxShow) || (!isSpec && t.shown < maxShow)) then
+        t := if isSpec then { t with shownSpec := t.shownSpec + 1 } else { t with shown := t.shown + 1 }
         let tag := (if v.specFail.isEmpty then "" else s!"SPEC_FAIL {",".intercalate v.specFail} ") ++
                    (if v.agree then "" else s!"DISAGREE model=[{v.model}] ")
         IO.println s!"{tag}| {line}"
